@@ -1046,7 +1046,39 @@ func c08Wrappers(c *Ctx, rule string) {
 					}
 				}
 			}
-			c.R.Check(okR, rule, fmt.Sprintf("%s: return #%d keeps 'an error comes without an Execution'", fname(f), n), c.pos(ret), "nil error, nil Execution, or an Execution handed on together with the error of the call it came from", "a layer between the interpreter and Step can return the Execution of a completed run together with an error of its own: Step attaches that Execution's events, so a failing action's emissions become visible")
+			// ... and the Execution of a completed run is handed on as it is: one made in this layer stands in only for a
+			// missing (nil) one, never for the run's own (whose events would be lost)
+			if okR {
+				hasCallee := false
+				for _, de := range deepDefs(exe, scope) {
+					if ex, isEx := de.(*ssa.Extract); isEx && ex.Index == 0 {
+						hasCallee = true
+					}
+				}
+				for _, src := range sourcesWithFacts(exe, scope) {
+					// an Execution made in this layer (NewExecution, or a literal)
+					made := false
+					if cl, isCl := src.leaf.(*ssa.Call); isCl && cl.Common().StaticCallee() != nil && cl.Common().StaticCallee().Name() == "NewExecution" {
+						made = true
+					}
+					if al, isAl := src.leaf.(*ssa.Alloc); isAl && ssau.TypeIs(al.Type(), prog.Abs("core"), "Execution") {
+						made = true
+					}
+					if !made || !hasCallee {
+						continue
+					}
+					standIn := false
+					for _, ft := range flow.Expand(src.facts) {
+						if bo, isB := ft.Cond.(*ssa.BinOp); isB && ssau.IsNilConst(bo.Y) && ssau.TypeIs(bo.X.Type(), prog.Abs("core"), "Execution") && ((bo.Op == token.EQL && ft.True) || (bo.Op == token.NEQ && !ft.True)) {
+							standIn = true
+						}
+					}
+					if !standIn && f.Name() == "Exec" {
+						okR = false
+					}
+				}
+			}
+			c.R.Check(okR, rule, fmt.Sprintf("%s: return #%d keeps 'an error comes without an Execution'", fname(f), n), c.pos(ret), "nil error, nil Execution, or an Execution handed on together with the error of the call it came from", "a layer between the interpreter and Step can return the Execution of a completed run together with an error of its own (Step attaches that Execution's events, so a failing action's emissions become visible), or it answers with an Execution of its own in place of the run's (what a completed action emitted is lost)")
 		}
 	}
 }
